@@ -35,6 +35,14 @@ func patternExternal(i *interpreter, fn *ssa.Function, full string) externalFn {
 	if zeroResultFuncs[full] {
 		return noopZero(fn)
 	}
+	if allocResultFuncs[full] {
+		// constructor of an opaque object: a fresh zero value behind a non-nil pointer
+		return func(fr *frame, args []value) value {
+			rt := fn.Signature.Results().At(0).Type()
+			cell := zero(mustDeref(rt))
+			return &cell
+		}
+	}
 	if fn.Pkg != nil && strings.HasPrefix(fn.Pkg.Pkg.Path(), "google.golang.org/protobuf/") {
 		return noopZero(fn) // descriptor registration plumbing of generated code
 	}
